@@ -116,10 +116,110 @@ def run(tier, replay=None):
                              + " lie " + str([unlimbs(x) for x in rec.get("lie", {}).get("values", [])] or rec.get("merkle_lie")),
                              {"kind": "hint", "profile": prof, "scenario": sc, "rec": rec, "impl": res})
     ck.extra["outcomes"] = stats
+    if not replay or scs and scs[0].get("tag") == "advice":
+        advice_part(ck, wd, tier == "thorough", scs if replay else None)
     for sc, rec in list(zip(scs, recs))[:: max(1, len(scs) // 5)][:5]:
         ck.sample({"src": rec["src"], "inputs": [unlimbs(x) for x in rec["inputs"]][:6], "lie": rec.get("lie", rec.get("merkle_lie")), "expect": sc["expect"]["ok"]})
     ck.assumptions = ["RPO / Merkle primitives of miden-crypto are trusted (the abstract Merkle model uses an injective hash)"]
     return ck.finish()
+
+
+def is_sym(x):
+    return isinstance(x, list) and len(x) == 3 and x[0] == "P"
+
+
+def advice_compare(exp, res):
+    """Advice.tla's prediction vs the implementation; symbolic permutation terms in the expected stack stand for
+    unknown values that must be used consistently (same term <-> same value)."""
+    if exp["ok"] == "ok":
+        if res["outcome"] != "ok":
+            return "spec: succeeds; impl: %s %s" % (res["outcome"], json.dumps(res.get("err", res.get("msg", "")))[:300])
+        z = [0, 0, 0, 0]
+        n = max(len(exp["stack"]), len(res["stack"]))
+        ea = exp["stack"] + [z] * (n - len(exp["stack"]))
+        ia = res["stack"] + [z] * (n - len(res["stack"]))
+        bind = {}
+        for i, (a, b) in enumerate(zip(ea, ia)):
+            if is_sym(a):
+                k = json.dumps(a)
+                if bind.setdefault(k, b) != b:
+                    return "final stack position %d: the same hash term has two values (%s, %s)" % (i, bind[k], b)
+            elif a != b:
+                return "final stack differs at position %d: spec %s impl %s" % (i, a, b)
+        vals = [json.dumps(v) for v in bind.values()]
+        if len(set(vals)) != len(vals):
+            return "distinct hash terms of the specification have equal values in the implementation"
+        return None
+    if exp["ok"] == "fail":
+        if res["outcome"] == "ok":
+            return "spec: fails with %s; impl: succeeds" % exp["kind"]
+        if res["outcome"] != "err":
+            return "spec: fails with %s; impl: %s %s" % (exp["kind"], res["outcome"], str(res.get("msg", ""))[:200])
+        if exp["kind"] != "any" and res["err"]["kind"] != exp["kind"]:
+            return "spec: error kind %s; impl: %s" % (exp["kind"], res["err"])
+        return None
+    return "SKIP"
+
+
+def advice_part(ck, wd, thorough, given=None):
+    """Advice provider state machine (Advice.tla): behaviours generated by TLC (GEN_Advice) replayed on the real VM."""
+    if given is not None:
+        scs = given
+    else:
+        scs = []
+        runs = [("exh", 2, None), ("hash", 4, None), ("sim", 8, 1500)] if not thorough else [("exh", 3, None), ("hash", 5, None), ("sim", 10, 12000)]
+        for mode, depth, num in runs:
+            cfgp = os.path.join(wd, "GEN_Advice_%s.cfg" % mode)
+            with open(cfgp, "w") as f:
+                f.write('CONSTANTS DEPTH = %d MODE = "%s"\nINIT Init\nNEXT Next\nINVARIANT Laws\nCHECK_DEADLOCK FALSE\n' % (depth, mode))
+            kw = dict(simulate=num, depth=depth + 2) if num else {}
+            r = tlc_or_die("GEN_Advice.tla", cfg=cfgp, cwd=os.path.join(SPEC, "gen"), workers=1 if num else 8, timeout=3000, heap="6g", **kw)
+            if r.violation:
+                raise ToolError("a law of Advice.tla does not hold in its own model: %s" % r.violation)
+            ck.add_tlc(r)
+            got = json_prints(r, "advice")
+            if len(got) < 500:
+                raise ToolError("GEN_Advice (%s) produced only %d behaviours" % (mode, len(got)))
+            scs += got
+    inp = os.path.join(wd, "advice_scenarios.ndjson")
+    recs = []
+    with open(inp, "w") as f:
+        for sc in scs:
+            rec = {"src": Renderer().program(sc["prog"]), "inputs": sc["init"], "adv": sc["adv"], "advmap": list(sc["map"].values()) if isinstance(sc["map"], dict) else sc["map"]}
+            recs.append(rec)
+            f.write(json.dumps(rec) + "\n")
+    seen_ops, outcomes = set(), {"ok": 0, "fail": 0}
+    for prof in ("release", "checked"):
+        outp = os.path.join(wd, "advice_results_%s.ndjson" % prof)
+        run_harness(prof, ["replay-masm", inp, outp])
+        results = [json.loads(l) for l in open(outp)]
+        if len(results) != len(scs):
+            raise ToolError("replay returned %d results for %d advice behaviours" % (len(results), len(scs)))
+        for sc, rec, res in zip(scs, recs, results):
+            d = advice_compare(sc["expect"], res)
+            if d == "SKIP":
+                continue
+            ck.traces += 1
+            ck.note_case(rec["src"])
+            outcomes["ok" if sc["expect"]["ok"] == "ok" else "fail"] += 1
+            for i in sc["prog"]:
+                seen_ops.add(i["op"])
+            if d:
+                last = [i["op"] for i in sc["prog"] if i["op"].startswith("adv")][-2:]
+                ck.violation("advice:%s:%s" % (prof, ",".join(last)), d + " | program: " + rec["src"].replace("\n", " ")[:400],
+                             {"kind": "advice", "profile": prof, "scenario": sc, "src": rec["src"], "impl": res})
+    needed = {"adv.push_mapval", "adv.push_mapvaln", "adv.insert_mem", "adv.insert_hdword", "adv.insert_hperm", "adv_push", "adv_loadw", "adv_pipe", "hmerge", "hperm"}
+    if given is None and not needed <= seen_ops:
+        raise ToolError("advice behaviours do not exercise %s" % sorted(needed - seen_ops))
+    # vacuity guard: look-ups under a key the injector computed by hashing must have succeeded in some behaviours
+    hashed = sum(1 for sc in scs if sc["expect"]["ok"] == "ok" and any(i["op"] in ("adv.insert_hdword", "adv.insert_hperm") for i in sc["prog"])
+                 and any(i["op"] in ("hmerge", "hperm") for i in sc["prog"]) and sc["prog"][-1]["op"] == "adv_push" and sc["prog"][-1]["p"] > 10)
+    if given is None and hashed < 20:
+        raise ToolError("only %d behaviours read back a value stored under a hashed key" % hashed)
+    ck.extra["advice_hashed_key_readbacks"] = hashed
+    ck.extra["advice_behaviours"] = len(scs)
+    ck.extra["advice_expected_outcomes"] = outcomes
+    ck.extra["advice_instructions"] = sorted(seen_ops)
 
 
 NEWVAL = [limbs(x) for x in (900, 901, 902, 903)]
